@@ -774,7 +774,10 @@ def m_headers(s):
         # extra members, reordered members: accepted
         c = copy.deepcopy(s)
         c['types'][ti]['elems'].append({'k': 'type', 'name': fresh(s, 'extra'), 'prim': 'uint32'})
-        yield Mut(c, 'header', None, hp, '%s header with an extra trailing member' % role, 'accept', '')
+        if role == 'data':
+            yield Mut(c, 'header', 'dataHeaderLayout', hp, 'data header: extra member behind varData', 'reject', 'layout')
+        else:
+            yield Mut(c, 'header', None, hp, '%s header with an extra trailing member' % role, 'accept', '')
 
 
 def m_data_header_layout(s):
